@@ -72,7 +72,11 @@ func VerifC03Forged() {
 	case 0: // own identity block
 	case 1: // own block, id replaced by the writer's
 		sigs := m.Signatures
-		switch vstub.NdChoice("id-signatures", 3) {
+		switch vstub.NdChoice("id-signatures", 5) {
+		case 3: // the writer's id signature copied (it travels in every entry of the writer), the attacker's own voucher
+			sigs = &idp.IdentitySignature{ID: w.Signatures.ID, PublicKey: m.Signatures.PublicKey}
+		case 4: // both of the writer's signatures copied, under the attacker's key
+			sigs = &idp.IdentitySignature{ID: w.Signatures.ID, PublicKey: w.Signatures.PublicKey}
 		case 0: // the attacker's own signatures, as they are
 		case 1: // the id re-signed with the attacker's key (it can sign anything with its own key), the writer's voucher copied
 			sigs = &idp.IdentitySignature{ID: vstub.SignToken(m.PublicKey, []byte(w.ID)), PublicKey: w.Signatures.PublicKey}
